@@ -374,6 +374,17 @@ func genWire(tier string) []proto.Item {
 			items = append(items, it)
 		}
 	}
+	// a segment of the run's own connection that answers no probe - the target retransmits its handshake SYN-ACK because
+	// the final handshake acknowledgement was slow - lands at each position of the delivery sequence: same hops as without
+	for _, v := range []string{"sack", "sackstrict"} {
+		for _, t := range []int{1, 2, 3, 4} {
+			for _, d := range []int{-1, 1500, 30000} {
+				s := proto.Scn{Variant: v, First: 1, Last: 4, Dest: 3, IPIDBase: 700, EchoBase: 71, TimeoutMs: 100, DelayMs: 10}
+				s.Inject = []proto.Inject{{OnTTL: t, AnswerTTL: t, Form: "synack", From: s.Target().String(), DelayUs: d, Tag: "handshake-synack-retransmitted"}}
+				items = append(items, proto.Item{Scn: s, Class: fmt.Sprintf("wire/%s/r1-4/synack-retransmitted", v), Note: map[string]string{"want_len": "3"}})
+			}
+		}
+	}
 	// a destination reply overrides a non-destination one for the same TTL: through the real drivers, on every schedule
 	for _, it := range c03.RouterThenDestination(700, 71) {
 		it.Class = "wire/" + it.Class
